@@ -10,11 +10,11 @@ HERE = os.path.dirname(os.path.dirname(os.path.abspath(__file__)))
 T = {
     "C01": ("exploration", "§4 C01",
             "store auditor (independent re-hash of every object, hand-assembled canonical listing) after every step and every add() of random multi-store histories",
-            "Random histories of stage/add/transfer/save/migrate/gc/checkout over 1-3 stores of both classes; after every step and after every HashFileDB.add call an independent auditor re-hashes every object file and re-encodes every directory listing. Sampled, not exhaustive: the claim is 'held on the histories explored'.",
+            "Random histories of stage/add/transfer/save/migrate/gc/checkout (incl. a long-lived workspace that is staged, rotated and staged again, and directories with several >1 MiB files) over 1-3 stores of both classes; after every step and after every HashFileDB.add call an independent auditor re-hashes every object file and re-encodes every directory listing. Sampled, not exhaustive: the claim is 'held on the histories explored'.",
             "trusts hashlib/blake3, os.walk and the kernel; directories staged under non-md5 algorithms are outside the property's operation sequences (DESIGN §0.3)"),
     "C02": ("exploration", "§4 C02",
             "workspace walk vs generated tree after stage->transfer->checkout (object and index routes), reload vs independent listing",
-            "Random trees through both store classes, every available link type, with/without state, object-level checkout and index compare/apply (explicit entries and lazily loaded directory objects); bytes and paths compared with the generator's own record.",
+            "Random trees through both store classes, every available link type, with/without state, object-level checkout and index compare/apply (explicit entries and lazily loaded directory objects); bytes and paths compared with the generator's own record; second legs: the checkout is staged again (same object expected) and a second generation (equal-sized files swapped by rename, mtimes preserved) goes round again through the same state.",
             "reflink unavailable on this sandbox's filesystems (falls back to copy); tmpfs scratch"),
     "C03": ("exploration", "§4 C03",
             "oid/bytes across all permutations (<=5 entries) and staging configurations vs hand encoder; run-wide collision map",
@@ -22,7 +22,7 @@ T = {
             "permutation space exhaustive only for sets of <=5 entries; parallel hashing path reached through files > threshold"),
     "C04": ("fault_enumeration", "§4 C04",
             "closure monitor evaluated after every upload event and at every enumerated crash point; exhaustive upload-failure subsets for <=6 objects",
-            "For trees sharing files: every subset of failing uploads (<=6 file objects, sampled above), closure (dir object => files) checked after every single upload and at the end, directory withheld+reported, fault-free retry completes; plus process kills at enumerated mutating events of the same transfers.",
+            "For trees sharing files: every subset of failing uploads (<=6 objects, sampled above), closure (dir object => files) checked after every single upload and at the end, directory withheld+reported, fault-free retry completes; a history through one destination index with an external loss in between; source objects vanishing between status and upload; plus process kills at enumerated mutating events of the same transfers.",
             "faults = OSError from the destination's put/copy; crash = process death at a Python-visible fs event (no power loss)"),
     "C05": ("exploration", "§4 C05",
             "lost-bytes accounting of the workspace against the cache before/after non-forced checkout; shadow model of the link table",
@@ -50,15 +50,15 @@ T = {
             "reflink unavailable here; run as root"),
     "C11": ("fault_enumeration", "§4 C11",
             "TransferResult vs independent destination listing, upload log and source snapshot under enumerated upload-failure subsets",
-            "Requests (files, dirs, shallow/expanded) over arbitrary initial contents, every failure subset for small object sets, corrupt sources under verify, directories with files missing on both sides; result sets compared with what an independent listing shows.",
+            "Requests (files, dirs, shallow/expanded) over arbitrary initial contents, every failure subset for small object sets, corrupt sources under verify (file objects and still-parseable directory objects), destinations with a hash-state cache, directories with files missing on both sides, two pushes sharing an index with an external deletion in between; result sets compared with what an independent listing shows.",
             "faults = OSError from upload; source integrity side effects of LocalHashFileDB.check are avoided by using base-class sources where stated"),
     "C12": ("exploration", "§4 C12",
             "status / compare_status answers vs independent listing (both lookup strategies reached); index contents vs upload log over shared-index histories",
-            "Stores on a remote-like filesystem with mined '00' objects so both existence strategies run; histories of transfers (with failures), external deletions and queries sharing one ObjectDBIndex.",
+            "Stores of all classes (remote-like with mined '00' objects and small listing pages so both existence strategies run; local stores with unprotected valid objects incl. the empty one); answers judged against the contents at query time and the query must not change the store; histories of transfers (with failures), external deletions and queries sharing one on-disk index through one or two handles; no indexed directory may be absent after a validating query.",
             "remote emulated by a non-local FileSystem over local disk"),
     "C13": ("exploration", "§4 C13",
             "every state-derived hash compared with hashlib on the bytes read at the same instant, over mutation/query interleavings and batch sizes across the 999 boundary",
-            "Mutation histories (grow, shrink, same-size rewrite, rename-replace, touch, delete, re-create) interleaved with single/batched/staging/index queries on tmpfs and ext4; injected foreign rows.",
+            "Mutation histories (grow, shrink, same-size rewrite, rename-replace also inode-only / size-only, touch, delete, re-create, symlinked files) interleaved with single/batched/staging/index queries on tmpfs and ext4; injected foreign rows; queries during which another writer rewrites a file right after it was read.",
             "mutations outside the quantifier (identical inode,mtime,size) are nudged by 1us and counted"),
     "C14": ("exploration", "§4 C14",
             "digest, pass-through bytes and byte counts vs hashlib/blake3 for random contents, algorithms, entry points and read-size sequences",
@@ -66,7 +66,7 @@ T = {
             "trusts hashlib and the blake3 wheel"),
     "C15": ("fault_enumeration", "§4 C15",
             "process killed at enumerated fs-mutating audit events; post-mortem store+state audit; re-run compared with an uninterrupted golden run",
-            "Four scenarios x generated trees; child process dies at the n-th mutating event (every n in thorough), optionally after a partial copy; parent audits store, state DB and closure, then re-runs and compares with golden.",
+            "Six scenarios (stage+transfer, index save with full or sparse directory entries, store-to-store with shared files, upload staging, plain add) x generated trees; child process dies at the n-th mutating event (every n in thorough), optionally after a partial copy; parent audits store, state DB and closure, then re-runs and compares with golden.",
             "crash = process death at a Python-visible event; SQLite journaling trusted; no power loss"),
     "C16": ("exploration", "§4 C16",
             "per-writer manifests vs shared store after concurrent thread/process writers with seeded jitter at every fs-operation boundary",
@@ -78,15 +78,15 @@ T = {
             "projection compares key/isdir/hash (sizes only where both sides have them)"),
     "C18": ("fault_enumeration", "§4 C18",
             "remote/cache listings vs independently computed reachable sets, counts, and retry under enumerated first-round upload-failure subsets",
-            "Indexes over nested trees with 1-3 storage prefixes and different remotes/caches; push after collect, fetch into empty caches, checkout; every failure subset for small object sets then a clean retry.",
+            "Indexes over nested trees (explicit or with top-level directories as unloaded entries) with storage prefixes at the root, at sibling top-level directories or one level deeper, own or shared caches/remotes, shuffled registration order; push after collect, fetch into empty caches, checkout; every failure subset for small object sets then a clean retry; per-role longest-prefix resolution checked against an independent resolver.",
             "remotes emulated over local disk"),
     "C19": ("exploration", "§4 C19",
             "_merge outcome vs per-key three-way rule over the complete 3-key x 3-value universe, all policies, both argument orders",
-            "All 19 683 (ancestor, ours, theirs) triples over a 3-key universe with nested keys x 5 policies x both orders in thorough (2-key universe + random in quick); merge() through a real store for a sample.",
+            "All 19 683 (ancestor, ours, theirs) triples over a 3-key universe with nested keys x 5 policies x both orders already in quick (4-key universe, 531 441 triples, in thorough) + random 6-key triples; merge() through a real store incl. non-canonically stored listings, fast-forwards, policy sequences on the same trees and an unavailable ancestor object.",
             "MergeError is always an acceptable outcome"),
     "C20": ("exploration", "§4 C20",
             "serialised projection before vs after JSON / key-value DB / SQLite-backed round trips over all optional-field combinations",
-            "Random indexes with every optional field combination incl. falsy values, non-ASCII keys, .dir hashes through write_json/read_json, write_db/read_db, DataIndex.open commit/close/reopen, and dict round trips.",
+            "Random indexes with every optional field combination incl. falsy values, non-ASCII keys, .dir hashes through write_json/read_json, write_db/read_db, DataIndex.open commit/close/reopen (also same-key histories and a lazily expanded directory entry), dict round trips and with-metadata listings; the projection is read off the attributes, not through to_dict.",
             "keys for the two textual forms are non-empty and '/'-free as the property states"),
 }
 
